@@ -1,5 +1,7 @@
 import Rare.Drv.Expr
 import Rare.Drv.C11F64
+import Rare.Drv.C08Fmt
+import Rare.Spec.C11Hf
 /-!
 C11 ops: the shared `expr` op, plus
 
@@ -10,6 +12,13 @@ reaches the builder as a constant without passing through the template syntax, s
 arbitrary bytes and be as large as `bufio.Scanner`'s limits).  Answer: `ok val=<hex>`.
 
   f64 …   the software binary64 model against the hardware, see `Rare/Drv/C11F64.lean`.
+
+  fmt <format hex> <operands hexlist>    `{format …}` = `fmt.Sprintf` on string operands (`Rare/Drv/C08Fmt.lean`)
+
+  spec hf <value hex>     `{hf value}` against the SPECIFICATION (not the model of the code): the rendering keeps
+                          the sign, so `-Inf` must print `-Inf`.  The code prints `Inf` (known finding, see
+                          `hf_neg_inf_counterexample`); for every other value the specification's answer is the
+                          model's (`hf_sign_partial`).
 -/
 namespace Rare.Drv.C11
 open Rare Rare.Expr Rare.Proto
@@ -29,8 +38,18 @@ def lookupFile (fn : String) (key content : Bytes) (pre : Option Bytes) : String
       | .error m => Rare.Drv.Expr.panicAns m
       | .ok v => s!"ok val={Hex.enc v}"
 
+/-- `{hf v}` as specified: sign-faithful. -/
+def specHf (v : Bytes) : String :=
+  match Funcs.Float.parseF v with
+  | none => s!"ok val={Hex.enc ErrorNum}"
+  | some x => s!"ok val={Hex.enc (if x.isInf then Spec.hfInfSpec x.sign else Funcs.Float.hfStr x)}"
+
 def handle (args : List String) : String :=
   match args with
+  | ["spec", "hf", v] =>
+    (match Hex.dec v with
+    | some b => specHf b
+    | none => "bad-args")
   | ["lookupfile", fn, k, c, p] =>
     (match Hex.dec k, Hex.dec c, (if p == "." then some none else (Hex.dec p).map some) with
     | some key, some content, some pre => lookupFile fn key content pre
@@ -39,8 +58,11 @@ def handle (args : List String) : String :=
     match Rare.Drv.C11F64.handle args with
     | some a => a
     | none =>
-      match Rare.Drv.Expr.handle args with
+      match Rare.Drv.C08Fmt.handle args with
       | some a => a
-      | none => "bad-op"
+      | none =>
+        match Rare.Drv.Expr.handle args with
+        | some a => a
+        | none => "bad-op"
 
 end Rare.Drv.C11
